@@ -447,6 +447,46 @@ theorem upsertTok_keeps_capsOk (s s' : St) (id : Nat) (ti : TokInfo) (h : capsOk
     · exact hn
   · cases hu
 
+/-- the message path needs no side condition: `ValidateBasic` of `MsgUpsertTokenInfo` refuses a cap outside [0, 1] for
+every token - stakeable or not - so a registration by message keeps `capsOk` as it is -/
+theorem registerTok_keeps_capsOk (s s' : St) (id : Nat) (ti : TokInfo) (h : capsOk s)
+    (hu : registerTok s id ti = some s') : capsOk s' := by
+  unfold registerTok at hu
+  split at hu
+  · cases hu
+  · split at hu
+    · cases hu
+    · rename_i hneg
+      split at hu
+      · cases hu
+      · split at hu
+        · cases hu
+        · exact upsertTok_keeps_capsOk s s' id ti h (Int.not_lt.mp hneg) hu
+
+/-- a token that cannot be staked is held to the same range: a negative cap would cancel the caps of the others in the
+registry's sum (-0.85 next to 0.5 + 0.25 + 0.1 leaves room for a further token at 100 %) -/
+example :
+    let s : St := { toks := [(0, ⟨true, 1, (5 * 10^17 : Int), 1⟩)] }
+    registerTok s 6 ⟨false, 1, (-85 * 10^16 : Int), 1⟩ = none ∧
+    (registerTok s 6 ⟨false, 1, (25 * 10^16 : Int), 1⟩).isSome = true := by decide +kernel
+
+/-- what the range is for: with every cap non-negative, ANY selection of registered tokens - the ones a given pool
+happens to hold - carries caps that add up to at most the registry's total, hence at most 1 -/
+theorem caps_of_any_selection (l sub : List (Nat × TokInfo)) (hs : sub.Sublist l)
+    (hn : ∀ t ∈ l, 0 ≤ t.2.stakeCap) :
+    (sub.map (fun t => t.2.stakeCap)).sum ≤ (l.map (fun t => t.2.stakeCap)).sum := by
+  induction hs with
+  | slnil => simp
+  | cons a _ ih =>
+    have h1 := ih (fun t ht => hn t (List.mem_cons_of_mem _ ht))
+    have ha : (0 : Int) ≤ a.2.stakeCap := hn a (List.mem_cons_self ..)
+    simp only [List.map_cons, List.sum_cons]
+    exact Int.le_trans h1 (Int.le_add_of_nonneg_left ha)
+  | cons_cons a _ ih =>
+    have h1 := ih (fun t ht => hn t (List.mem_cons_of_mem _ ht))
+    simp only [List.map_cons, List.sum_cons]
+    exact Int.add_le_add_left h1 _
+
 /-- switching a token's staking off does not take its cap out of the sum: with ukex at 50 % and a disabled token at
 25 %, a third token cannot get 50 % -/
 example :
